@@ -114,6 +114,10 @@ def run_omap(ctx):
     os.makedirs(w, exist_ok=True)
     n, steps = (150, 300) if ctx.tier == "quick" else (2500, 500)
     rc, out = vlib.sh([os.path.join(tdir, "hx_core"), "omap", "--seed", str(ctx.seed), "--n", str(n), "--steps", str(steps), "--out", w], timeout=3000)
+    if rc == 3:
+        # the harness watchdog: an operation of the real map did not return; oracle.txt holds the `timeout` line with the history
+        failures = [dict(cls=l.split(" ")[0], what=l[:6000]) for l in read_lines(os.path.join(w, "oracle.txt"))]
+        return dict(cases=0, disagreements=[], failures=failures, dist={"omap:watchdog-fired": 1}, histories=0, nontrivial=0, samples=[])
     if rc != 0:
         raise RuntimeError("omap harness failed: " + out[-2000:])
     rc, err = run_driver(exe, os.path.join(w, "cases.txt"), os.path.join(w, "model.txt"))
